@@ -159,6 +159,25 @@ def search(ctx, budget):
         bad = nf_oracle(size, text, out)
         if bad:
             ctx.failures.append(({'stage': 'pre', 'size': size, 'text': text, 'observed': out}, bad))
+    reuse_search(ctx, budget)
+
+def reuse_search(ctx, budget):
+    """the same text under several indent sizes on ONE parser object, as a caller who changes indent_size does: every answer must be the
+    pre-parsed form for the size in force"""
+    js = []
+    for i in range(ctx.n(300, 10000) * budget):
+        t = gen.random_layout_text(ctx.rng, 6)
+        if '\t' not in t:
+            ls = t.split('\n'); k = ctx.rng.randrange(len(ls)); ls[k] = ls[k] + '\tx' if ls[k].strip() else '\ty'; t = '\n'.join(ls)
+        js.append((ctx.rng.sample([1, 2, 3, 4], ctx.rng.randint(2, 3)), t))
+    for (sizes, text), outs in zip(js, impl.pmap(impl.pre_parse_reused, js)):
+        if not in_alphabet(text): continue
+        for size, out in zip(sizes, outs):
+            ctx.evaluations += 1; ctx.count('oracle_cases_reused_parser')
+            bad = nf_oracle(size, text, out)
+            if bad:
+                ctx.failures.append(({'stage': 'pre-reused', 'sizes': sizes, 'size': size, 'text': text, 'observed': out}, bad + ' (same parser object used with indent sizes %r in turn)' % (sizes,)))
+                break
 
 def probe_disagreement(ctx, stage, case):
     out = impl.pre_parse((case['size'], case['text']))
@@ -174,6 +193,10 @@ def replay(obj):
     case = obj.get('case') or (obj.get('disagreements') or [{}])[0].get('case')
     if not case:
         print('nothing to replay:', obj.get('broken_obligations')); return 1
+    if case.get('stage') == 'pre-reused':
+        outs = impl.pre_parse_reused((case['sizes'], case['text']))
+        bads = [nf_oracle(sz, case['text'], o) for sz, o in zip(case['sizes'], outs)]
+        print('sizes', case['sizes'], 'outputs', outs, 'oracle', bads); return 1 if any(bads) else 0
     out = impl.pre_parse((case['size'], case['text']))
     m = model.run([['pre', case['size'], case['text']]])[0]
     bad = nf_oracle(case['size'], case['text'], out, structural_only=bool(case.get('structural_only')))
